@@ -28,7 +28,17 @@ def execute(P, cases, ctx, tag="main", run_model=True):
     impl, model, errs = {}, {}, []
     for gi, (k, cs) in enumerate(sorted(groups.items())):
         env, drv = json.loads(k)
-        if hasattr(P, "augment"):
+        if hasattr(P, "impl_runner"):
+            # the implementation side is orchestrated by the property module (crash injection)
+            i, e = P.impl_runner(cs, ctx, os.path.join(rundir, "g%d" % gi))
+            errs += e
+            aug = [P.augment(c, i.get(c[0])) for c in cs]
+            m = {}
+            if run_model:
+                _, m, e2 = run_sharded(drv, aug, ctx.drv, os.path.join(rundir, "m%d" % gi),
+                                       run_model=True, run_impl=False, shards=getattr(P, "SHARDS", None))
+                errs += e2
+        elif hasattr(P, "augment"):
             # two phases: the implementation runs first; what it observed about its own
             # nondeterminism (HashMap / directory order) is handed to the model as an oracle
             i, _, e = run_sharded(drv, cs, ctx.drv, os.path.join(rundir, "g%d" % gi),
